@@ -6,7 +6,7 @@ import verde as vd
 from hypothesis import strategies as st
 
 from vlib import blocks, build, gen
-from vlib.oracles import line_models, match_line
+from vlib.oracles import exact as exact_value, line_models, match_line
 from vlib.runner import Sub, Violation
 
 PROPERTY = "C14"
@@ -158,7 +158,7 @@ def check_rolling(case, ctx):
             ctx.check(np.asarray(sel_e).ndim == 1, "indexing with a window's indices must give a 1-D selection")
             flat_sel = set(np.ravel_multi_index(idx, e.shape).tolist()) if e.size else set()
             ctx.check(len(flat_sel) == np.asarray(idx[0]).size, "duplicate indices in window %d,%d", i, j)
-            cx, cy = fr(ce[i, j]), fr(cn[i, j])
+            cx, cy = exact_value(ce[i, j], "window centre"), exact_value(cn[i, j], "window centre")
             for k in range(e.size):
                 dx, dy = abs(fe[k] - cx), abs(fn[k] - cy)
                 d = max(dx, dy)
